@@ -43,7 +43,7 @@ ASSUMPTIONS = ["insertion semantics: Mutation(pos,'insX') = X inserted after gen
                "pos (the anchor _realign_indels uses); written 'P insX' = X inserted after "
                "RefSeq base P"]
 KINDS = [("sub", 1), ("mnp", 2), ("mnp", 3), ("mnpdot", 3), ("ins", 1), ("ins", 3),
-         ("del", 1), ("del", 2), ("del", 4), ("delins", 2)]
+         ("del", 1), ("del", 2), ("del", 4), ("delins", 1), ("delins", 2), ("delins", 3)]
 
 
 def BOUNDS(tier):
@@ -155,7 +155,8 @@ def op_for(kind, n):
     if kind == "del":
         return "del" + a, n
     if kind == "delins":
-        return f"del{a}insTG", n
+        # inserted part of a different length than the deleted part
+        return f"del{a}ins{'TGCA'[:(n % 3) + 1]}", n
     raise KeyError(kind)
 
 
